@@ -1,15 +1,28 @@
-(* The lexical constants of the --set parsers as the translator reads them out of
+(* The lexical constants and decisions of the --set parsers as the translator reads them out of
    pkg/strvals/parser.go and literal_parser.go on every run (Gen/StrvalsTable.v), tied to the
-   models: the stop functions of Values/Strvals.v / Strvals2.v agree with the extracted
-   runeSet literals on every byte; the constants, the escape rune, the comparison lists and
-   typedVal's words are the model's. *)
-From Coq Require Import List String Ascii Bool Arith ZArith Lia.
-From Helm Require Import Common.Strs Values.Tree Values.Strvals Values.Strvals2 Gen.StrvalsTable.
+   models SEMANTICALLY:
+   - the stop set of every runesUntil call (looked up by function name, however the set is
+     built in Go) is, on every byte, the stop function the models use in that state;
+   - typedVal, extracted as ordered (test, result) rules whatever its syntax, is interpreted
+     here and proved equal to the model's typed_val2 FOR ALL STRINGS (EqualFold(v, "0") and
+     v == "0" are the same test);
+   - the range checks of setIndex / key / listItem, compiled to boolean functions of integers,
+     are proved equivalent to the model's tests FOR ALL INTEGERS (lia);
+   - the sets of runes each function compares the current rune with are the expected sets. *)
+From Coq Require Import List String Ascii Bool Arith ZArith Lia ZifyBool.
+From Helm Require Import Common.Strs Values.Tree Values.Strvals Values.Strvals2 Values.Strvals2Read Gen.StrvalsTable.
 Import ListNotations.
 Local Open Scope string_scope.
 
 Definition mem_nat (n : nat) (l : list nat) : bool := existsb (Nat.eqb n) l.
 
+Fixpoint assoc_s {A} (k : string) (l : list (string * A)) : option A :=
+  match l with
+  | [] => None
+  | (k', x) :: t => if String.eqb k k' then Some x else assoc_s k t
+  end.
+
+(* ---------- stop sets ---------- *)
 (* f is the characteristic function of the byte set [set] (all ASCII) *)
 Definition stop_agrees (f : ascii -> bool) (set : list nat) : bool :=
   forallb (fun n => Bool.eqb (f (ascii_of_nat n)) (mem_nat n set)) (seq 0 256)
@@ -25,60 +38,245 @@ Proof.
   apply eqb_prop. apply H. apply in_seq. lia.
 Qed.
 
-(* the stop function the models use in each state, in the order the translator lists them *)
+(* the stop function the models use in each state *)
 Definition model_stops : list (string * (ascii -> bool)) :=
   [ ("parser.key", stop_key); ("parser.keyIndex", stop_rbr); ("parser.listItem", stop_item);
     ("parser.val", stop_comma); ("parser.valList", stop_list);
     ("literalParser.key", stop_key_lit); ("literalParser.keyIndex", stop_rbr);
     ("literalParser.listItem", stop_item); ("literalParser.val", stop_none) ].
 
-Fixpoint stops_agree (ms : list (string * (ascii -> bool))) (gs : list (string * list nat)) : bool :=
-  match ms, gs with
+(* every runesUntil call of the Go code is in a state the model knows and passes the model's
+   stop set; every state of the model is read somewhere *)
+Definition stops_ok (gs : list (string * list nat)) : bool :=
+  forallb (fun e => match assoc_s (fst e) model_stops with Some f => stop_agrees f (snd e) | None => false end) gs
+  && forallb (fun m => existsb (fun e => String.eqb (fst e) (fst m)) gs) model_stops.
+
+(* ---------- rune comparisons ---------- *)
+Definition expected_rune_sets : list (string * list nat) :=
+  [ ("parser.key", [44; 46; 61; 91]); ("parser.listItem", [46; 61; 91]); ("parser.emptyVal", [44]);
+    ("parser.valList", [44; 123; 125]); ("runesUntil", [92]);                 (* runesUntilLiteral: none — no escapes *)
+    ("literalParser.key", [46; 61; 91]); ("literalParser.listItem", [46; 61; 91]) ].
+
+Fixpoint nats_eqb (a b : list nat) : bool :=
+  match a, b with
   | [], [] => true
-  | (n, f) :: ms', (n', set) :: gs' => String.eqb n n' && stop_agrees f set && stops_agree ms' gs'
+  | x :: a', y :: b' => Nat.eqb x y && nats_eqb a' b'
   | _, _ => false
   end.
 
-Definition expected_rune_cmps : list (string * list string) :=
-  [ ("parser.key", ["== 91"; "== 61"; "== 44"; "== 46"]); ("parser.listItem", ["== 61"; "== 91"; "== 46"]);
-    ("parser.emptyVal", ["== 44"]); ("parser.valList", ["!= 123"; "== 125"; "!= 44"; "== 44"]);
-    ("runesUntil", ["== 92"]);
-    ("literalParser.key", ["== 61"; "== 46"; "== 91"]); ("literalParser.listItem", ["== 61"; "== 46"; "== 91"]) ].
+Definition rune_sets_ok (gs : list (string * list nat)) : bool :=
+  forallb (fun e => match assoc_s (fst e) gs with Some s => nats_eqb s (snd e) | None => false end) expected_rune_sets
+  && forallb (fun g => match assoc_s (fst g) expected_rune_sets with Some _ => true | None => false end) gs.
 
-Definition expected_range_checks : list (string * list string) :=
-  [ ("parser.key", ["nestedNameLevel > MaxNestedNameLevel"]);
-    ("setIndex", ["index < 0"; "index > MaxIndex"; "len(list) <= index"]);
-    ("parser.listItem", ["i < 0"; "nestedNameLevel > MaxNestedNameLevel"; "len(list) > i"; "nestedNameLevel > MaxNestedNameLevel"; "len(list) > i"]);
-    ("literalParser.key", ["nestedNameLevel > MaxNestedNameLevel"]);
-    ("literalParser.listItem", ["i < 0"; "nestedNameLevel > MaxNestedNameLevel"; "len(list) > i"; "nestedNameLevel > MaxNestedNameLevel"; "len(list) > i"]) ].
+(* ---------- typedVal as interpreted rules ---------- *)
+Inductive tatom := ANonempty | AFirstNe (c : nat).
+Inductive ttest := TSt | TFold (w : string) | TEq (w : string) | TAnd (atoms : list tatom) | TElse.
+Inductive tres := RStr | RBool (b : bool) | RNull | RInt (n : Z) | RParseInt (base size skip : nat).
 
-Lemma tables_ok :
+Definition strip (p s : string) : option string :=
+  if String.prefix p s then Some (substring (String.length p) (String.length s - String.length p) s) else None.
+
+Fixpoint split_on (c : ascii) (s : string) : list string :=
+  match s with
+  | EmptyString => [EmptyString]
+  | String a t =>
+      if Ascii.eqb a c then EmptyString :: split_on c t
+      else match split_on c t with
+           | h :: r => String a h :: r
+           | [] => [String a EmptyString]
+           end
+  end.
+
+Definition parse_nat (s : string) : option nat :=
+  match s with
+  | EmptyString => None
+  | _ => option_map Z.to_nat (digits_val 0 s)
+  end.
+
+Definition parse_atom (s : string) : option tatom :=
+  if String.eqb s "nonempty" then Some ANonempty
+  else match strip "first-ne:" s with
+       | Some n => option_map AFirstNe (parse_nat n)
+       | None => None
+       end.
+
+Fixpoint all_some {A} (l : list (option A)) : option (list A) :=
+  match l with
+  | [] => Some []
+  | Some x :: t => option_map (cons x) (all_some t)
+  | None :: _ => None
+  end.
+
+Definition parse_test (s : string) : option ttest :=
+  if String.eqb s "st" then Some TSt
+  else if String.eqb s "else" then Some TElse
+  else match strip "fold:" s with
+       | Some w => Some (TFold w)
+       | None =>
+           match strip "eq:" s with
+           | Some w => Some (TEq w)
+           | None =>
+               match strip "and:" s with
+               | Some r => option_map TAnd (all_some (map parse_atom (split_on "&" r)))
+               | None => None
+               end
+           end
+       end.
+
+Definition parse_res (s : string) : option tres :=
+  if String.eqb s "str" then Some RStr
+  else if String.eqb s "null" then Some RNull
+  else if String.eqb s "bool:true" then Some (RBool true)
+  else if String.eqb s "bool:false" then Some (RBool false)
+  else match strip "int:" s with
+       | Some n => option_map (fun k => RInt (Z.of_nat k)) (parse_nat n)
+       | None =>
+           match strip "parseint:" s with
+           | Some r =>
+               match split_on ":" r with
+               | [b; z] => match parse_nat b, parse_nat z with Some b', Some z' => Some (RParseInt b' z' 0) | _, _ => None end
+               | [b; z; k] =>
+                   match parse_nat b, parse_nat z, strip "skip" k with
+                   | Some b', Some z', Some k' => option_map (RParseInt b' z') (parse_nat k')
+                   | _, _, _ => None
+                   end
+               | _ => None
+               end
+           | None => None
+           end
+       end.
+
+Definition parse_rules (l : list (string * string)) : option (list (ttest * tres)) :=
+  all_some (map (fun p => match parse_test (fst p), parse_res (snd p) with Some t, Some r => Some (t, r) | _, _ => None end) l).
+
+Definition atom_holds (v : string) (a : tatom) : bool :=
+  match a with
+  | ANonempty => negb (String.eqb v EmptyString)
+  | AFirstNe c => match v with String ch _ => negb (Nat.eqb (nat_of_ascii ch) c) | EmptyString => true end
+  end.
+
+Definition test_holds (t : ttest) (st : bool) (v : string) : bool :=
+  match t with
+  | TSt => st
+  | TFold w => eq_fold2 v w                  (* strings.EqualFold(val, w) *)
+  | TEq w => String.eqb v w                  (* val == w *)
+  | TAnd atoms => forallb (atom_holds v) atoms
+  | TElse => true
+  end.
+
+(* the rules in order; a ParseInt rule whose parse fails goes on after [skip] further rules (the
+   rest of its switch); None = the rules do not define a result (or ParseInt is not base 10 / 64 bits) *)
+Fixpoint interp (skip : nat) (rules : list (ttest * tres)) (st : bool) (v : string) : option val :=
+  match rules with
+  | [] => None
+  | (t, r) :: rest =>
+      match skip with
+      | S k => interp k rest st v
+      | O =>
+          if test_holds t st v then
+            match r with
+            | RStr => Some (VStr v)
+            | RBool b => Some (VBool b)
+            | RNull => Some VNull
+            | RInt n => Some (VNum n)
+            | RParseInt b z k =>
+                if Nat.eqb b 10 && Nat.eqb z 64
+                then match parse_int v with Some n => Some (VNum n) | None => interp k rest st v end
+                else None
+            end
+          else interp 0 rest st v
+      end
+  end.
+
+Definition go_rules_parsed : option (list (ttest * tres)) := Eval vm_compute in parse_rules go_typed_rules.
+
+Lemma eq_fold2_zero_b : forall v, eq_fold2 v "0" = String.eqb v "0".
+Proof.
+  intros v. destruct (String.eqb v "0") eqn:E.
+  - apply String.eqb_eq in E. subst. reflexivity.
+  - destruct (eq_fold2 v "0") eqn:F; [|reflexivity]. apply eq_fold2_zero in F. subst. discriminate.
+Qed.
+
+Lemma first_ne_zero : forall c, Nat.eqb (nat_of_ascii c) 48 = ch_eq c "0".
+Proof.
+  intros c. destruct (ch_eq c "0") eqn:E.
+  - apply Ascii.eqb_eq in E. subst. reflexivity.
+  - apply Nat.eqb_neq. intros H. apply Ascii.eqb_neq in E. apply E.
+    rewrite <- (ascii_nat_embedding c), H. reflexivity.
+Qed.
+
+(* typedVal of the Go source = the model's typed_val2, for every flag and every string *)
+Theorem typed_rules_ok :
+  exists rules, go_rules_parsed = Some rules /\ forall st v, interp 0 rules st v = Some (typed_val2 st v).
+Proof.
+  eexists. split; [reflexivity|].
+  intros st v. unfold typed_val2. cbn [interp test_holds forallb atom_holds Nat.eqb andb].
+  rewrite ?eq_fold2_zero_b.
+  destruct st; [reflexivity|].
+  destruct (eq_fold2 v "true"); [reflexivity|].
+  destruct (eq_fold2 v "false"); [reflexivity|].
+  destruct (eq_fold2 v "null"); [reflexivity|].
+  destruct (String.eqb v "0"); [reflexivity|].
+  destruct v as [|c t]; [reflexivity|].
+  cbn [String.eqb negb andb]. rewrite ?first_ne_zero, ?andb_true_r.
+  destruct (ch_eq c "0"); cbn [negb]; [reflexivity|].
+  destruct (parse_int (String c t)); reflexivity.
+Qed.
+
+(* ---------- range checks ---------- *)
+Definition fns_of (name : string) (tbl : list (string * list (Z -> Z -> Z -> bool))) : list (Z -> Z -> Z -> bool) :=
+  match assoc_s name tbl with Some l => l | None => [] end.
+
+Definition any_holds (fs : list (Z -> Z -> Z -> bool)) (index len level : Z) : bool :=
+  existsb (fun f => f index len level) fs.
+
+(* the nesting-level test of the models, on integers *)
+Lemma level_test_Z : forall lvl : nat,
+  Nat.ltb max_nested_name_level (S lvl) = (Z.of_nat max_nested_name_level <? Z.of_nat lvl + 1)%Z.
+Proof. intros lvl. unfold max_nested_name_level. destruct (Nat.ltb 30 (S lvl)) eqn:E; lia. Qed.
+
+Theorem range_checks_ok :
+  (* setIndex rejects exactly the indexes outside 0..MaxIndex, whatever the form and order of its tests … *)
+  (forall index len level,
+     any_holds (fns_of "setIndex" go_error_guards) index len level = ((index <? 0) || (max_index <? index))%Z)
+  (* … and allocates a longer list exactly when the index is not inside the list *)
+  /\ (List.length (fns_of "setIndex" go_len_conds) = 1
+      /\ forall f, In f (fns_of "setIndex" go_len_conds) -> forall index len level, f index len level = (len <=? index)%Z)
+  (* listItem of both parsers rejects exactly the negative indexes up front *)
+  /\ (forall index len level, any_holds (fns_of "parser.listItem" go_error_guards) index len level = (index <? 0)%Z)
+  /\ (forall index len level, any_holds (fns_of "literalParser.listItem" go_error_guards) index len level = (index <? 0)%Z)
+  (* the nesting-level tests: one in key(), two in listItem() ('[' and '.'), each on the level after its increment *)
+  /\ (List.length (fns_of "parser.key" go_level_guards) = 1 /\ List.length (fns_of "parser.listItem" go_level_guards) = 2
+      /\ List.length (fns_of "literalParser.key" go_level_guards) = 1 /\ List.length (fns_of "literalParser.listItem" go_level_guards) = 2)
+  /\ (forall f, In f (fns_of "parser.key" go_level_guards ++ fns_of "parser.listItem" go_level_guards
+                      ++ fns_of "literalParser.key" go_level_guards ++ fns_of "literalParser.listItem" go_level_guards)%list ->
+        forall index len level, f index len level = (Z.of_nat max_nested_name_level <? level + 1)%Z)
+  (* "is there an element at list[i]": two places in each listItem, the model's in_range for i >= 0 *)
+  /\ (List.length (fns_of "parser.listItem" go_len_conds) = 2 /\ List.length (fns_of "literalParser.listItem" go_len_conds) = 2)
+  /\ (forall f, In f (fns_of "parser.listItem" go_len_conds ++ fns_of "literalParser.listItem" go_len_conds)%list ->
+        forall index len level, f index len level = (index <? len)%Z)
+  (* nothing else in these functions tests the index, the length or the level *)
+  /\ forallb (fun e => match snd e with [] => true | _ => false end) go_other_conds = true
+  /\ fns_of "parser.key" go_error_guards = [] /\ fns_of "literalParser.key" go_error_guards = []
+  /\ fns_of "setIndex" go_level_guards = [] /\ fns_of "parser.key" go_len_conds = [] /\ fns_of "literalParser.key" go_len_conds = [].
+Proof.
+  unfold any_holds.
+  repeat match goal with |- _ /\ _ => split end;
+    try reflexivity;
+    try (intros index len level; cbn; unfold go_max_index, max_index; lia);
+    try (intros f Hf index len level; cbn in Hf;
+         repeat (destruct Hf as [<-|Hf]; [unfold go_max_nested_name_level, max_nested_name_level, go_max_index, max_index; lia|]);
+         contradiction).
+Qed.
+
+(* ---------- everything together ---------- *)
+Theorem tables_all :
   go_max_index = max_index
   /\ go_max_nested_name_level = max_nested_name_level
-  /\ stops_agree model_stops go_stop_sets = true
-  /\ go_rune_cmps = expected_rune_cmps
-  /\ go_range_checks = expected_range_checks
-  /\ go_typed_words = ["true"; "false"; "null"; "0"]
-  /\ go_parse_int_args = [10; 64]
+  /\ stops_ok go_stop_sets = true
+  /\ rune_sets_ok go_rune_sets = true
   /\ go_is_space_users = ["parser.emptyVal"].
 Proof. repeat split; vm_compute; reflexivity. Qed.
-
-(* the models decide with the extracted values *)
-Lemma set_index_uses_table : forall l i v,
-  set_index l i v = if (i <? 0)%Z then None else if (go_max_index <? i)%Z then None else Some (set_nth (Z.to_nat i) v l).
-Proof. reflexivity. Qed.
-
-Lemma typed_val2_uses_table : forall v,
-  typed_val2 false v =
-  if eq_fold2 v (nth 0 go_typed_words "") then VBool true
-  else if eq_fold2 v (nth 1 go_typed_words "") then VBool false
-  else if eq_fold2 v (nth 2 go_typed_words "") then VNull
-  else if eq_fold2 v (nth 3 go_typed_words "") then VNum 0
-  else match v with
-       | String c _ => if ch_eq c "0" then VStr v else match parse_int v with Some n => VNum n | None => VStr v end
-       | EmptyString => VStr v
-       end.
-Proof. reflexivity. Qed.
 
 (* every stop rune of every state is the byte set the translator extracted — for all bytes *)
 Lemma stops_all_bytes : forall c,
@@ -93,27 +291,7 @@ Proof.
   intros c. repeat split; apply stop_agrees_all; vm_compute; reflexivity.
 Qed.
 
-Lemma tables_all :
-  go_max_index = max_index
-  /\ go_max_nested_name_level = max_nested_name_level
-  /\ stops_agree model_stops go_stop_sets = true
-  /\ go_rune_cmps = expected_rune_cmps
-  /\ go_range_checks = expected_range_checks
-  /\ go_typed_words = ["true"; "false"; "null"; "0"]
-  /\ go_parse_int_args = [10; 64]
-  /\ go_is_space_users = ["parser.emptyVal"]
-  /\ (forall c : ascii,
-        stop_key c = mem_nat (nat_of_ascii c) [61; 91; 44; 46]
-        /\ stop_key_lit c = mem_nat (nat_of_ascii c) [61; 91; 46]
-        /\ stop_item c = mem_nat (nat_of_ascii c) [91; 46; 61]
-        /\ stop_rbr c = mem_nat (nat_of_ascii c) [93]
-        /\ stop_comma c = mem_nat (nat_of_ascii c) [44]
-        /\ stop_list c = mem_nat (nat_of_ascii c) [44; 125]
-        /\ stop_none c = mem_nat (nat_of_ascii c) [])
-  /\ (forall l i v, set_index l i v =
-        if (i <? 0)%Z then None else if (go_max_index <? i)%Z then None else Some (set_nth (Z.to_nat i) v l)).
-Proof.
-  destruct tables_ok as (A & B & C & D & E & F & G & H).
-  split; [exact A|]. split; [exact B|]. split; [exact C|]. split; [exact D|]. split; [exact E|].
-  split; [exact F|]. split; [exact G|]. split; [exact H|]. split; [exact stops_all_bytes | exact set_index_uses_table].
-Qed.
+(* the models decide with the extracted constants *)
+Lemma set_index_uses_table : forall l i v,
+  set_index l i v = if (i <? 0)%Z then None else if (go_max_index <? i)%Z then None else Some (set_nth (Z.to_nat i) v l).
+Proof. reflexivity. Qed.
